@@ -4,6 +4,7 @@ import os
 from .. import common, tlc, traces, rngshim
 
 MOVES = ["full_shuffle", "swapRandChargeRes", "permute_block_swap", "permute_cluster_charges"]
+SUCCEED = ["full_shuffle", "swapRandChargeRes", "swapRes"]
 TWO53 = 2 ** 53
 
 
@@ -31,8 +32,10 @@ def cp_of(obj):
     return [int(x) for x in obj.chargePattern]
 
 
-def run_move(lc, parent, move, frozen, shim):
+def run_move(lc, parent, move, frozen, shim, args=None):
     with rngshim.installed(lc, shim):
+        if move == "swapRes":
+            return common.call(parent.swapRes, args[0], args[1], limit=60)
         return common.call(getattr(parent, move), set(frozen), limit=60)
 
 
@@ -87,8 +90,8 @@ def replay_record(ctx, lc, rec, cached):
     pcp = cp_of(parent)
     pdmax = parent.dmax
     frozen = rec["frozen"]
-    shim = rngshim.Tape(py_tape(rec["tape"]))
-    out = run_move(lc, parent, rec["move"], frozen, shim)
+    shim = rngshim.Tape([] if rec["move"] == "swapRes" else py_tape(rec["tape"]))
+    out = run_move(lc, parent, rec["move"], frozen, shim, args=[d[1] for d in rec["tape"]] if rec["move"] == "swapRes" else None)
     ctx.evaluations += 1
     case = {"move": rec["move"], "seq": pseq, "frozen": frozen, "tape": rec["tape"], "dmax_cached": cached}
     exp = rec["st"]
@@ -108,7 +111,7 @@ def replay_record(ctx, lc, rec, cached):
         got = "exc"
     retry_ok = exp == "more" or (exp in ("child", "tie") and not rec["changed"] and rec["move"] in MOVES[2:])
     # the statement's clauses
-    if got == "exc" and rec["move"] in MOVES[:2]:
+    if got == "exc" and rec["move"] in SUCCEED:
         ctx.violation("move-failed", case, expected="a rearranged object", actual=out[:3])
         return
     if got == "child":
@@ -136,7 +139,7 @@ def replay_record(ctx, lc, rec, cached):
             conf = "child differs from the specification's for the same draws"
         elif shim.tape:
             conf = "fewer draws used than the specification"
-        elif out[1].dmax != pdmax:
+        elif out[1].dmax != pdmax and not (rec["move"] == "swapRes" and rec["tape"][0][1] == rec["tape"][1][1]):
             conf = "delta-max not carried over"
     if conf:
         c = ctx.extra.setdefault("conformance_notes", {})
@@ -153,13 +156,16 @@ def chain_events(ctx, lc, tid, start, nmoves, seed):
         common.call(obj.deltaMax)
     ev = []
     for step in range(nmoves):
-        move = rng.choice(MOVES + ["full_shuffle", "swapRandChargeRes"])
+        move = rng.choice(MOVES + ["full_shuffle", "swapRandChargeRes", "swapRes"])
         N = len(obj.seq)
         frozen = sorted(rng.sample(range(N), rng.choice([0, 0, 1, 2, min(N, 5)]))) if N > 1 else []
         pseq, pcp = obj.seq, cp_of(obj)
         rec.take()
-        out = run_move(lc, obj, move, frozen, rec)
-        log = rec.take()
+        args = [rng.randrange(N), rng.randrange(N)] if move == "swapRes" else None
+        if move == "swapRes":
+            frozen = []
+        out = run_move(lc, obj, move, frozen, rec, args=args)
+        log = [["arg", args[0]], ["arg", args[1]]] if move == "swapRes" else rec.take()
         ctx.evaluations += 1
         e = {"move": move, "parent": list(pseq), "frozen": frozen, "tape": tla_tape(log), "parentafter": list(obj.seq), "parentcpafter": cp_of(obj),
              "st": "child", "child": [], "childcp": [], "childlen": 0, "dmax": "unset", "dmaxfx": common.fx(0)}
@@ -252,7 +258,7 @@ def run(ctx):
                 "unaltered, frozen kept; (V) chains of 20 random moves on random sequences with a seeded recording RNG, "
                 "get_shuffled_sequence and SequencePermutants.get_permutant, validated by TLC (Trace_Moves) on the logged draws. "
                 "non-trivial = distinct (move, sequence, frozen, draws)")
-    plan = [("full_shuffle", ctx.pick(4, 5), 5), ("swapRandChargeRes", ctx.pick(4, 5), 5),
+    plan = [("swapRes", ctx.pick(5, 6), 0), ("full_shuffle", ctx.pick(4, 5), 5), ("swapRandChargeRes", ctx.pick(4, 5), 5),
             ("permute_block_swap", ctx.pick(5, 6), 1), ("permute_cluster_charges", ctx.pick(5, 6), 1)]
     ctx.exhaustive = True
     for move, maxlen, maxfrozen in plan:
